@@ -43,6 +43,7 @@ PROPS = {
                         CMD + "Response.construct", CMD + "StateResponse.__init__", AC + "._update_state", AC + ".refresh#one_state_response"],
             "level": "proof"},
     "C19": {"targets": [CLOUDM + "BaseCloud.get_token", CLOUDM + "BaseCloud._post_request", CLOUDM + "NetHomePlusCloud._parse_response",
+                        CLOUDM + "NetHomePlusCloud.login", CLOUDM + "NetHomePlusCloud._Security.encrypt_password#derivation", DISCM + "Discover._get_cloud",
                         "msmart.lan.Security.udpid", DISCM + "Discover._authenticate_device"],
             "level": "proof"},
     "C17": {"targets": [DISCM + "Discover.discover_single", DISCM + "_DiscoverProtocol.__init__", DISCM + "Discover._get_device_version", DISCM + "Discover._get_device_info#wellformed", DISCM + "Discover._get_device_class",
